@@ -163,6 +163,20 @@ CHECKS = {
         "Trusted: pytket Op.get_unitary (ILO-BE), numpy. Tolerance 1e-9; phases on the stated grid only "
         "(entries are trigonometric polynomials of degree 1 in the phase).",
         "DESIGN.md 4/C11"),
+    "C12": (
+        "exhaustive enumeration of all circuits up to the bound over the full classical-quantum alphabet, "
+        "the real cqmap.Functor / get_counts / measure compared with a reference superoperator algebra",
+        "Every circuit up to the depth/width bound with bits and qubits interleaved (gates, kets, bras, "
+        "bits, all four variants of Measure and of Encode, Discard and MixedState on bits and qubits, "
+        "multi-qubit Measure/Discard/MixedState, Copy/Match, stochastic gates, pure/mixed/sqrt scalars, "
+        "all swaps) from every initial type of width <= 2: eval(mixed=True) must equal the reference map on "
+        "doubled wires (value and CQ type), CQMap.pure(eval()) for all-qubit pure circuits, the dagger must "
+        "evaluate to the adjoint, and for circuits made of preparations, unitaries, measurements, discards "
+        "and stochastic gates get_counts(), measure() and measure(mixed=True) must equal the reference "
+        "probability distribution (which sums to one).",
+        "Trusted: mc/qref.py (textbook definitions, numpy kron/matmul), pytket unitaries. Tolerance 1e-9. "
+        "Thorough tier strides depth-3 circuits (reported as a cap).",
+        "DESIGN.md 4/C12"),
 }
 
 PENDING_REASON = ("check not built yet in this session (planned: bounded exhaustive exploration as in "
